@@ -95,6 +95,10 @@ func genC08(t *rapid.T) interface{} {
 	if c.Total > 0 && c.Current >= c.Total {
 		c.Completed = rapid.Bool().Draw(t, "completed")
 	}
+	if c.Total <= 0 && c.Current == c.Total && rapid.Bool().Draw(t, "completedempty") {
+		// a bar with nothing to do, completed through SetTotal(-1, true) / SetTotal(0, true)
+		c.Completed = true
+	}
 	c.TipOnC = rapid.IntRange(0, 3).Draw(t, "tipc") == 0
 	return c
 }
@@ -136,8 +140,12 @@ func c08Fill(c *c08Case, current int64, completed bool) (c08Cells, error) {
 	if refill < 0 {
 		refill = 0
 	}
-	err := f.Fill(&buf, decor.Statistics{AvailableWidth: c.Width, RequestedWidth: c.Requested,
-		Total: c.Total, Current: current, Refill: refill, Completed: completed})
+	var err error
+	// a fill that never returns (or eats the heap) is reported, not waited for
+	_ = guardTermination("C08", c, func() {
+		err = f.Fill(&buf, decor.Statistics{AvailableWidth: c.Width, RequestedWidth: c.Requested,
+			Total: c.Total, Current: current, Refill: refill, Completed: completed})
+	})
 	var cells c08Cells
 	cells.raw = buf.String()
 	if err != nil {
